@@ -9,8 +9,8 @@ OPS = {'==': '=', '!=': '<>', '>': '>', '>=': '>=', '<': '<', '<=': '<='}
 NUMS = [5, 2.5, -4, 0, 3, 10]
 TEXTS = ['apple', 'APPLE', 'a*', '*an*', '?pple', 'a~*c', 'ab', 'a?', 'b', 'x y', 'a.c', '[a]', 'banana',
          'nan', 'inf', 'Infinity', '1_0', 'e5', '0x1A',        # words float() would take for numbers: they are texts
-         'a~~b', '50~~', '~~', 'a~?', '~*~~']                    # ~ escapes itself and the wildcards, with or without a wildcard in the text
-CELLS = [5, 3, 10, 2.5, -4, 0, 'apple', 'Apple', 'banana', 'a*c', 'abc', 'ab', 'a.c', 'axc', '[a]', '', True, False, None, 'NaN', 'nan', 'INF', 'infinity', '1_0', 26, 'a~b', 'a~~b', '50~', '50~~', '~', '~~', 'a?', 'a~?', '*~', '*~~']
+         'a~~b', '50~~', '~~', 'a~?', '~*~~', 'abc~', '~', 'a*~']                    # ~ escapes itself and the wildcards, with or without a wildcard in the text
+CELLS = [5, 3, 10, 2.5, -4, 0, 'apple', 'Apple', 'banana', 'a*c', 'abc', 'ab', 'a.c', 'axc', '[a]', '', True, False, None, 'NaN', 'nan', 'INF', 'infinity', '1_0', 26, 'a~b', 'a~~b', '50~', '50~~', '~', '~~', 'a?', 'a~?', '*~', '*~~', 'abc~', 'abc', 'ab~']
 
 
 class _Blank:
@@ -196,6 +196,31 @@ def end_to_end(chk, tier):
                     chk.violation({'why': 'AVERAGEIFS is not SUMIFS / COUNTIFS over the same selection', 'formula': laws[i], 'average': a, 'sum': s, 'count': c, 'stream': 'avg-law'})
             elif c == 'I0' and a not in (core.enc('#DIV/0!'), core.enc('#DIV0!')):
                 chk.violation({'why': 'AVERAGEIFS over an empty selection is not the division error value', 'formula': laws[i], 'average': a, 'stream': 'avg-law'})
+        # date cells in the criteria range, the criterion assembled with & from a date cell (or the date cell itself)
+        import datetime as _d
+        days = [_d.datetime(2021, 2, 20) + _d.timedelta(days=rng.choice([0, 3, 3, 28, 125, 400])) for _ in range(h)]
+        pivot = rng.choice(days)
+        dvalues = dict(values)
+        for i, v in enumerate(days):
+            dvalues[(9, i)] = v                      # column J
+        dvalues[(10, 0)] = pivot                     # K1
+        cmpf = {'>': lambda a, b: a > b, '>=': lambda a, b: a >= b, '<': lambda a, b: a < b, '<=': lambda a, b: a <= b, '<>': lambda a, b: a != b, '=': lambda a, b: a == b}
+        dforms, dwant = [], []
+        for op, fcmp in cmpf.items():
+            sel = [i for i in range(h) if fcmp(days[i], pivot)]
+            dforms.append('=COUNTIFS(%s,"%s"&K1)' % (R('J'), op))
+            dwant.append('I%d' % len(sel))
+            dforms.append('=SUMIFS(%s,%s,"%s"&K1)' % (R('D'), R('J'), op))
+            dwant.append(core.enc(sum(tgt[i] for i in sel)) if all(isinstance(tgt[i], int) for i in sel) else None)
+        dforms.append('=COUNTIFS(%s,K1)' % R('J'))
+        dwant.append('I%d' % sum(1 for x in days if x == pivot))
+        do = realcode.eval_formulas(dforms, dvalues)
+        for f, got, want in zip(dforms, do, dwant):
+            chk.count('law:date-criteria')
+            chk.seen(('datecrit', b, f))
+            if want is not None and got != want:
+                chk.violation({'why': 'a criterion assembled with & from a date cell does not select the dates that compare that way with it', 'formula': f,
+                               'dates': [x.isoformat() for x in days], 'K1': pivot.isoformat(), 'impl': got, 'want': want, 'stream': 'date-criteria'})
         # a target range that also holds numbers stored as text: they are neither summed nor counted
         mixed = [rng.choice([1, 2, 4, 8, 16, 32, '20', '7', '100']) for _ in range(h)]
         mvalues = dict(values)
